@@ -10,6 +10,7 @@ import (
 	"math"
 	"math/big"
 	"math/bits"
+	"math/rand/v2"
 	"os"
 	"runtime"
 	"sort"
@@ -85,6 +86,78 @@ func thresholdChoices(p uint64) ([]uint64, []*big.Float) {
 		return []uint64{0, math.MaxUint64}, []*big.Float{zero, fint(1)}
 	}
 	return []uint64{0, p - 1, p, math.MaxUint64}, []*big.Float{below, zero, zero, above}
+}
+
+// thresholdChoicesProbed enumerates the word used for the keep test against
+// threshold p = 2^(64-k)-1. Rejected words (>= p) must all behave alike.
+// Admitted words (< p) have their top k bits zero and their low 64-k bits
+// uniform; an implementation may legitimately go on using those low bits (as
+// the first coins of a pass, say), so which of them influence the outcome is
+// probed and every pattern of the influential ones is enumerated with weight
+// 2^-k * 2^-|I|.
+func thresholdChoicesProbed(c *cfg, st state, v int, prefix []uint64) ([]uint64, []*big.Float, *unowned) {
+	p := st.p
+	k := bits.LeadingZeros64(p)
+	below := pow2(-k)
+	above := new(big.Float).Sub(fint(1), below)
+	sig := func(w uint64) string { return signature(c, st, v, append(append([]uint64{}, prefix...), w)) }
+	if p == 0 {
+		return []uint64{math.MaxUint64}, []*big.Float{fint(1)}, nil
+	}
+	rej := []uint64{p, math.MaxUint64, 1 << 63, 1<<63 | 0x2AAAAAAAAAAAAAAA, p | 0x5555555555555555}
+	ref := sig(rej[0])
+	for _, w := range rej[1:] {
+		if w >= p && sig(w) != ref {
+			return nil, nil, &unowned{fmt.Sprintf("the keep test of Add(%d) from %s treats the rejected words %x and %x differently", v, st.key(), rej[0], w)}
+		}
+	}
+	low := uint(64 - k) // number of uniform low bits of an admitted word
+	mask := uint64(1)<<low - 1
+	var inf []uint
+	for b := uint(0); b < low; b++ {
+		for _, base := range []uint64{0, mask & 0xAAAAAAAAAAAAAAAA, mask & 0x5555555555555555} {
+			w0, w1 := base, base^(1<<b)
+			if w0 >= p || w1 >= p {
+				continue
+			}
+			if sig(w0) != sig(w1) {
+				inf = append(inf, b)
+				break
+			}
+		}
+	}
+	if len(inf) > 10 {
+		return nil, nil, &unowned{fmt.Sprintf("the word of the keep test influences the outcome of Add(%d) from %s through %d of its low bits", v, st.key(), len(inf))}
+	}
+	var infMask uint64
+	for _, b := range inf {
+		infMask |= 1 << b
+	}
+	// other low bits: all zero for even patterns, all one (but one, to stay below p) for odd ones
+	others := mask &^ infMask
+	if others != 0 {
+		others &^= others & -others // clear its lowest set bit
+	}
+	ws := []uint64{rej[0]}
+	rs := []*big.Float{above}
+	wgt := new(big.Float).Mul(below, pow2(-len(inf)))
+	for pat := uint64(0); pat < 1<<uint(len(inf)); pat++ {
+		var w uint64
+		for i, b := range inf {
+			if pat&(1<<uint(i)) != 0 {
+				w |= 1 << b
+			}
+		}
+		if pat%2 == 1 {
+			w |= others
+		}
+		if w >= p {
+			w &^= 1 << (low - 1)
+		}
+		ws = append(ws, w)
+		rs = append(rs, wgt)
+	}
+	return ws, rs, nil
 }
 
 // unowned is returned when the harness cannot establish how the code uses a
@@ -209,20 +282,11 @@ func transitions(c *cfg, st state, v int) (outs []outcome, truncated *big.Float,
 			var ws []uint64
 			var rs []*big.Float
 			if pos == 0 && st.p < math.MaxUint64 {
-				ws, rs = thresholdChoices(st.p)
-				// The keep test must be a threshold comparison: words on the same
-				// side of p behave alike. Otherwise exact weights are unknown.
-				mid := func(a, b uint64) uint64 { return a/2 + b/2 }
-				lo := []uint64{0, mid(0, st.p), st.p / 3}
-				hi := []uint64{math.MaxUint64, mid(st.p, math.MaxUint64), st.p + (math.MaxUint64-st.p)/3 + 1}
-				for _, side := range [][]uint64{lo, hi} {
-					ref := signature(c, st, v, append(append([]uint64{}, words...), side[0]))
-					for _, w := range side[1:] {
-						if signature(c, st, v, append(append([]uint64{}, words...), w)) != ref {
-							own = &unowned{fmt.Sprintf("the keep test of Add(%d) from %s is not a comparison with the threshold: words %x and %x on the same side behave differently", v, st.key(), side[0], w)}
-							return
-						}
-					}
+				var o *unowned
+				ws, rs, o = thresholdChoicesProbed(c, st, v, words)
+				if o != nil {
+					own = o
+					return
 				}
 			} else {
 				passes := pos
@@ -238,7 +302,7 @@ func transitions(c *cfg, st state, v int) (outs []outcome, truncated *big.Float,
 					truncated.Add(truncated, bound)
 					return
 				}
-				inf := cachedInfluence(c, st, v, words, nb)
+				inf := cachedInfluence(c, st, v, words, nb*100+min(pos, 1))
 				if len(inf) > 10 {
 					own = &unowned{fmt.Sprintf("a random word of a halving pass influences the outcome through %d bits (Add(%d) from %s)", len(inf), v, st.key())}
 					return
@@ -638,6 +702,147 @@ func streams(values, maxLen int) [][]int {
 	return out
 }
 
+// ---- one fair coin per element, for buffers larger than a word ----
+//
+// The exact analysis above is limited to small buffers (it enumerates all
+// coin patterns). For large buffers a necessary structural condition is
+// checked instead, deterministically: in a halving pass over n elements every
+// element must own one coin - one bit of the random words whose value alone
+// decides whether that element survives - and no two elements may share one.
+// With all-zero words nothing survives; flipping a single bit to one must let
+// exactly one element (or none, for an unused bit) survive.
+
+type coinCase struct {
+	N     int    `json:"buffer_size"`
+	Order string `json:"halving_visit_order"`
+}
+
+func checkCoins(cc coinCase) *mc.Failure {
+	setOrder(cc.Order)
+	words := (cc.N+63)/64 + 1
+	buf := make([]int, cc.N-1)
+	for i := range buf {
+		buf[i] = i
+	}
+	run := func(w []uint64) ([]int, uint64) {
+		src := &script{words: w}
+		ctr := newCounter(cc.N, src)
+		setState(ctr, buf, math.MaxUint64)
+		ctr.Add(cc.N - 1) // fills the buffer: one halving pass over N elements
+		got, p := getState(ctr)
+		sort.Ints(got)
+		return got, p
+	}
+	zero := make([]uint64, words)
+	if got, p := run(zero); len(got) != 0 || p != math.MaxUint64>>1 {
+		return mc.Failf(0, "buffer of %d: with all coins 'drop' the pass leaves %v, threshold %x (want nothing, %x)", cc.N, got, p, uint64(math.MaxUint64>>1))
+	}
+	owner := map[int]string{}
+	for w := 0; w < words; w++ {
+		for b := uint(0); b < 64; b++ {
+			ws := make([]uint64, words)
+			ws[w] = 1 << b
+			got, _ := run(ws)
+			if len(got) > 1 {
+				return mc.Failf(0, "buffer of %d: bit %d of random word %d decides the survival of several elements %v: coins are shared", cc.N, b, w, got)
+			}
+			if len(got) == 1 {
+				if prev, dup := owner[got[0]]; dup {
+					return mc.Failf(0, "buffer of %d: element %d survives on bit %s and on bit %d of word %d", cc.N, got[0], prev, b, w)
+				}
+				owner[got[0]] = fmt.Sprintf("%d of word %d", b, w)
+			}
+		}
+	}
+	for v := 0; v < cc.N; v++ {
+		if _, ok := owner[v]; !ok {
+			return mc.Failf(0, "buffer of %d: element %d (visited %s) survives for no value of the random words: it has no coin and is always evicted", cc.N, v, cc.Order)
+		}
+	}
+	return nil
+}
+
+// ---- statistical complement ----
+//
+// When the harness cannot own the randomness of a configuration (the code
+// consumes random bits in a way the probes cannot partition), the exact
+// analysis gives no verdict. The property itself is phrased statistically
+// ("the mean of Count converges ... checked with a tolerance many standard
+// errors wide"), so in that case - and only then - the check falls back on
+// that formulation: many independent runs on repeated-value streams with a
+// deterministic PRNG, mean against the true count with a tolerance of 8
+// standard errors plus 0.2%. This is sampling, declared as such in the
+// evidence; it never runs when the exact analysis applies.
+
+type statCase struct {
+	Size, Distinct, Repeats, Runs int
+	Seed                          uint64
+}
+
+func runStat(sc statCase) *mc.Failure {
+	type acc struct{ sum, sumsq float64 }
+	workers := runtime.NumCPU()
+	parts := make([]acc, workers)
+	var bad atomic.Value
+	mc.ParallelFor(workers, workers, func(w int) {
+		src := rand.NewPCG(sc.Seed+uint64(w)*7919, 0x9e3779b97f4a7c15)
+		for run := w; run < sc.Runs; run += workers {
+			ctr := newCounter(sc.Size, src)
+			lastK := 0
+			for rep := 0; rep < sc.Repeats; rep++ {
+				for v := 0; v < sc.Distinct; v++ {
+					ctr.Add(v)
+					if ctr.Len() > sc.Size {
+						bad.Store(fmt.Sprintf("Len=%d exceeds the buffer size %d", ctr.Len(), sc.Size))
+						return
+					}
+					if l := ctr.Len(); l > 0 {
+						q := ctr.Count() / uint64(l)
+						if ctr.Count()%uint64(l) != 0 || q&(q-1) != 0 || bits.TrailingZeros64(q) < lastK {
+							bad.Store(fmt.Sprintf("Count=%d is not Len=%d times a non-decreasing power of two", ctr.Count(), l))
+							return
+						}
+						lastK = bits.TrailingZeros64(q)
+					}
+				}
+			}
+			c := float64(ctr.Count())
+			parts[w].sum += c
+			parts[w].sumsq += c * c
+		}
+	})
+	if b := bad.Load(); b != nil {
+		return mc.Failf(0, "statistical complement (size %d): %s", sc.Size, b)
+	}
+	var sum, sumsq float64
+	for _, p := range parts {
+		sum += p.sum
+		sumsq += p.sumsq
+	}
+	n := float64(sc.Runs)
+	mean := sum / n
+	sd := math.Sqrt(math.Max(sumsq/n-mean*mean, 0))
+	se := sd / math.Sqrt(n)
+	d := float64(sc.Distinct)
+	if math.Abs(mean-d) > 8*se+0.002*d {
+		return mc.Failf(0, "statistical complement: buffer size %d, %d distinct values each added %d times, %d runs: mean Count = %.3f, true count %d (%.1f standard errors away)", sc.Size, sc.Distinct, sc.Repeats, sc.Runs, mean, sc.Distinct, (mean-d)/se)
+	}
+	return nil
+}
+
+func statisticalComplement(r *mc.Run) {
+	var cases []statCase
+	for _, size := range []int{4, 8, 16, 64} {
+		cases = append(cases, statCase{Size: size, Distinct: 6 * size, Repeats: 3, Runs: mc.Pick(r, 60000, 400000), Seed: uint64(r.Seed) + uint64(size)})
+	}
+	for _, sc := range cases {
+		if f := runStat(sc); f != nil {
+			r.Violation(mc.Case{Harness: "cvm-statistical", Trace: mc.J(sc), Msg: f.Msg})
+		}
+	}
+	r.Extra("statistical_complement", map[string]any{"ran": true, "cases": cases, "note": "sampling; used only because the exact analysis could not own the randomness of at least one configuration"})
+}
+
 func fallback(r *mc.Run) {
 	// Without the seedable constructor only the clauses that do not depend on
 	// the random outcomes are decided exhaustively: the exact regime.
@@ -689,6 +894,7 @@ func main() {
 			}
 			var sum []map[string]any
 			var nstreams, above int64
+			anyGaveUp := false
 			for i := range cfgs {
 				c := &cfgs[i]
 				e := newExplorer(c)
@@ -725,12 +931,30 @@ func main() {
 				}
 				nstreams += ns
 				above += ab
+				if e.gaveUp {
+					anyGaveUp = true
+				}
 				sum = append(sum, map[string]any{"order": c.Order, "size": c.Size, "values": c.Values, "max_stream_len": c.MaxLen, "streams": ns,
 					"reachable_states": len(e.states), "distinct_transitions": e.transitions, "threshold_halvings": e.evictions})
 				r.AddEval(int64(len(e.states)), e.transitions, 0, 0)
 			}
 			r.AddEval(0, 0, nstreams, above)
 			r.Extra("configurations", sum)
+			var coins int64
+			for _, n := range mc.Pick(r, []int{2, 3, 8, 63, 64, 65, 66, 128, 129}, []int{2, 3, 5, 8, 31, 32, 33, 63, 64, 65, 66, 100, 127, 128, 129, 130, 192, 193, 257}) {
+				for _, o := range []string{"sorted", "reverse"} {
+					cc := coinCase{n, o}
+					if f := mc.GuardT("cvm-coins", cc, func() *mc.Failure { return checkCoins(cc) }); f != nil {
+						r.Violation(mc.Case{Harness: "cvm-coins", Trace: mc.J(cc), Msg: f.Msg})
+					}
+					coins++
+				}
+			}
+			r.AddEval(coins, coins, coins, coins)
+			r.Count("one_coin_per_element_cases", coins)
+			if anyGaveUp || os.Getenv("VERIF_C19_FORCE_STAT") == "1" {
+				statisticalComplement(r)
+			}
 			r.Rule("for every stream (up to value renaming) within the bounds, the exact distribution over (buffer, threshold) states is propagated using transitions obtained by running the real Add under every class of every random word; oracles: exact regime, Len <= size, Count = Len*2^k with k non-decreasing, per-transition martingale conditions, E[Count] = true distinct count, Reset from every reachable state; non-trivial = streams that reach the buffer size")
 			r.Assume("the code uses a random word only through the comparison with the threshold (4 classes around p, exact weights) or through its low bits in a halving pass (all patterns of size+2 bits); a word being used inconsistently is reported")
 			r.Assume("map iteration order in the halving pass is unspecified by the language: the driver rewrites that one loop header to visit the buffer in an order chosen by the harness, and the propagation is repeated for several orders")
@@ -747,6 +971,32 @@ func main() {
 			}
 			e := newExplorer(&t.Cfg)
 			return e.checkStream(t.Stream)
+		},
+	}, mc.Harness{
+		Name:    "cvm-coins",
+		Explore: func(r *mc.Run) {},
+		Replay: func(c mc.Case) *mc.Failure {
+			var cc coinCase
+			if err := mc.Unmarshal(c.Trace, &cc); err != nil {
+				return mc.Failf(-1, "bad trace: %v", err)
+			}
+			if !mc.HooksEnabled || os.Getenv("VERIF_C19_ORDER") != "1" {
+				return nil
+			}
+			return checkCoins(cc)
+		},
+	}, mc.Harness{
+		Name:    "cvm-statistical",
+		Explore: func(r *mc.Run) {},
+		Replay: func(c mc.Case) *mc.Failure {
+			var sc statCase
+			if err := mc.Unmarshal(c.Trace, &sc); err != nil {
+				return mc.Failf(-1, "bad trace: %v", err)
+			}
+			if !mc.HooksEnabled {
+				return nil
+			}
+			return runStat(sc)
 		},
 	}, mc.Harness{
 		Name:    "cvm-reset",
